@@ -449,6 +449,12 @@ def run_history(seed, policy, steps, records=None, stop_at=None):
             step += 1
     finally:
         NM.default = 'DEFAULT'
+        try:        # harness hygiene: the namespace manager would keep every world alive for ever
+            for o in W.objs:
+                if irlib.kind(o) in ('Netlist', 'Library', 'Definition'):
+                    NM.namespaces.pop(o, None)
+        except Exception:
+            pass
     return fails, hist, evals
 
 
